@@ -1,5 +1,58 @@
-(** C34 — secure statistics (statements only; proofs in theories/Stats.v). *)
+(** C34 — secure statistics vs Python's statistics module (statements only; proofs in theories/Stats.v). *)
 Require Import MPyC.RandomFns MPyC.Stats.
 From Coq Require Import ZArith List.
 Import ListNotations.
 Local Open Scope nat_scope.
+
+(** _isqrt (hence stdev/pstdev on secure integers): the integer square root, for every l-bit a >= 0. *)
+Theorem C34_isqrt_correct :
+  forall l a : Z, (1 <= l)%Z -> (0 <= a < 2 ^ l)%Z ->
+    let r := isqrt l a in (r * r <= a < (r + 1) * (r + 1))%Z.
+Proof. exact isqrt_correct. Qed.
+Print Assumptions C34_isqrt_correct.
+
+(** mean on secure integers = exact mean rounded half up: floor((2s + n) / (2n)). *)
+Theorem C34_mean_int_round_half_up :
+  forall x : list Z, (0 < zlen x)%Z -> mean_int x = ((2 * zsum x + zlen x) / (2 * zlen x))%Z.
+Proof. exact mean_int_round_half_up. Qed.
+Print Assumptions C34_mean_int_round_half_up.
+
+Theorem C34_mean_int_nearest :
+  forall x : list Z, (0 < zlen x)%Z -> (2 * Z.abs (zsum x - zlen x * mean_int x) <= zlen x)%Z.
+Proof. exact mean_int_nearest. Qed.
+Print Assumptions C34_mean_int_nearest.
+
+(** quantiles, both methods, every n > 0, every cut i, every (sorted) data list d: the value computed from the
+    order statistics equals CPython's interpolation formula (numerator over n) rounded half up. *)
+Theorem C34_quantile_arith_eq_python :
+  forall (inclusive : bool) (d : list Z) (n i : Z), (0 < n)%Z ->
+    q_cut_sorted inclusive d n i = ((2 * py_quantile_num inclusive d n i + n) / (2 * n))%Z.
+Proof. exact quantile_arith_eq_python. Qed.
+Print Assumptions C34_quantile_arith_eq_python.
+
+Theorem C34_quantile_inclusive_index_range :
+  forall ld n i : Z, (2 <= ld)%Z -> (0 < n)%Z -> (1 <= i < n)%Z ->
+    let '(j, delta) := q_index true ld n i in
+    (0 <= j /\ j < ld - 1 /\ 0 <= delta < n /\ i * (ld - 1) = j * n + delta)%Z.
+Proof. exact quantile_inclusive_index_range. Qed.
+Print Assumptions C34_quantile_inclusive_index_range.
+
+Theorem C34_quantile_exclusive_index_range :
+  forall ld n i : Z, (2 <= ld)%Z -> (0 < n)%Z ->
+    let '(j, delta) := q_index false ld n i in (1 <= j <= ld - 1 /\ i * (ld + 1) = j * n + delta)%Z.
+Proof. exact quantile_exclusive_index_range. Qed.
+Print Assumptions C34_quantile_exclusive_index_range.
+
+(** mode: the code (min + argmax of the histogram) does NOT return Python's first-encountered mode. *)
+Theorem C34_mode_eq_python_refuted : exists x : list Z, mode 16 5 x <> py_mode x.
+Proof. exact mode_eq_python_refuted. Qed.
+Print Assumptions C34_mode_eq_python_refuted.
+
+(** Non-vacuity / concrete values. *)
+Example C34_nonvacuous :
+  isqrt 16 99 = 9%Z /\ isqrt 16 65535 = 255%Z /\ mean_int [1; 2; 4]%Z = 2%Z /\ mean_int [1; 2]%Z = 2%Z /\
+  q_cut_sorted true [1; 2; 5; 7; 9]%Z 4 1 = 2%Z /\ py_quantile_num true [1; 2; 5; 7; 9]%Z 4 1 = 8%Z /\
+  q_cut_sorted false [1; 2; 5; 7; 9]%Z 4 1 = 2%Z /\ py_quantile_num false [1; 2; 5; 7; 9]%Z 4 1 = 6%Z /\
+  q_index true 5 4 1 = (1, 0)%Z /\ q_index false 5 4 3 = (4, 2)%Z /\
+  mode 16 5 [3; 3; 1; 1]%Z = 1%Z /\ py_mode [3; 3; 1; 1]%Z = 3%Z.
+Proof. vm_compute. repeat split; reflexivity. Qed.
